@@ -1,5 +1,6 @@
 import Drv.Stat
 import FsutilModel.Model.Filter
+import FsutilModel.Lemmas.C16Walk
 open Lean Fsm Fsm.F Fsm.P
 
 namespace Drv
@@ -30,7 +31,9 @@ def hFilter (j : Json) : Except String Json := do
   let raw := (getHexArr j "include").toOption.getD [] ++ (getHexArr j "exclude").toOption.getD []
   return jobj [("m", Json.arr (m.map statJ).toArray), ("noprune", Json.arr (np.map (fun s => jhex s.path)).toArray),
                ("ref", Json.arr (r.map (fun s => jhex s.path)).toArray), ("open", Json.arr opens.toArray),
-               ("illegal", toJson (raw.any illegalBang))]
+               ("illegal", toJson (raw.any illegalBang)),
+               -- premise of C16.filtered_walk_reports_copier_selection, evaluated on the listing the real walk produced
+               ("canon", toJson (C16W.canonB listing))]
 
 def hPatMatch (j : Json) : Except String Json := do
   let pats ← getHexArr j "patterns"
